@@ -205,6 +205,11 @@ func ParseRPCServerOrder(version uint32, details *auctioneerrpc.ServerOrder,
 		multiSigKey [33]byte
 	)
 
+	if details == nil {
+		return nil, nodeKey, nil, multiSigKey,
+			errors.New("server order details missing")
+	}
+
 	copy(nonce[:], details.OrderNonce)
 	kit := NewKit(nonce)
 	kit.AuctionType = AuctionType(details.AuctionType)
@@ -282,6 +287,10 @@ func ParseRPCServerAsk(details *auctioneerrpc.ServerAsk) (*MatchedOrder, error) 
 		kit *Kit
 		err error
 	)
+	if details == nil {
+		return nil, errors.New("server ask missing")
+	}
+
 	kit, o.NodeKey, o.NodeAddrs, o.MultiSigKey, err = ParseRPCServerOrder(
 		details.Version, details.Details, true,
 		details.LeaseDurationBlocks,
@@ -315,6 +324,10 @@ func ParseRPCServerBid(details *auctioneerrpc.ServerBid) (*MatchedOrder, error) 
 		kit *Kit
 		err error
 	)
+	if details == nil {
+		return nil, errors.New("server bid missing")
+	}
+
 	kit, o.NodeKey, o.NodeAddrs, o.MultiSigKey, err = ParseRPCServerOrder(
 		details.Version, details.Details, false,
 		details.LeaseDurationBlocks,
